@@ -268,7 +268,7 @@ theorem endsInput_init {r : Realm} {x : SessKey} {op : Op} (h : EndsInput r x op
     · rfl
     · exact absurd (List.contains_iff_mem.mp h') he
   rcases h with rfl | ⟨m, s, rfl, hf, hm, hg⟩
-  · rw [stepOp_drop, hec]
+  · rw [stepOp_drop_attached hx, hec]
     simp only [Bool.false_eq_true, if_false]
     refine ⟨?_, .before hx rfl rfl rfl rfl⟩
     intro t ht'
@@ -306,7 +306,7 @@ theorem step_isolated {r : Realm} (hi : RealmInv r) (hc : CtlInv r) (ht : r.task
     (∀ c ∈ r.ds.d.calls, c.sess ≠ x → (∀ v ∈ r.ds.d.invs, v.callee = x → v.callId ≠ c) → c ∈ (r.step op).2.ds.d.calls) ∧
     (r.step op).2.testaments = r.testaments.filter (fun t => t.1 != x) := by
   have hxm : x ≠ metaKey := hc.safe.client_ne hx
-  obtain ⟨hl, hnt⟩ := endsInput_leaving hop hb he
+  obtain ⟨hl, hnt⟩ := endsInput_leaving hop hx hb he
   obtain ⟨ho1, hph1⟩ := endsInput_init hop hx hxm hb he ht
   have hopc : OpC r op := by
     rcases hop with rfl | ⟨m, s, rfl, _⟩
